@@ -9,6 +9,7 @@ import (
 	"log"
 	"net"
 	"os"
+	"sync"
 	"time"
 )
 
@@ -72,6 +73,8 @@ type Conn struct {
 
 	rdl    time.Time
 	closed bool
+	lk     *sync.Mutex // pipe lock (race mode)
+	rng    uint64
 
 	acceptedByServer bool // handed out by Listener.Accept
 	acceptStep       int
@@ -97,10 +100,66 @@ type Conn struct {
 // NewPipe creates a connected pair.
 func NewPipe(s *Sim, name string) (a, b *Conn) {
 	ab, ba := &stream{}, &stream{}
-	a = &Conn{sim: s, Name: name + ".a", in: ba, out: ab}
-	b = &Conn{sim: s, Name: name + ".b", in: ab, out: ba}
+	lk := &sync.Mutex{}
+	a = &Conn{sim: s, Name: name + ".a", in: ba, out: ab, lk: lk, rng: HashString(name)}
+	b = &Conn{sim: s, Name: name + ".b", in: ab, out: ba, lk: lk, rng: HashString(name) ^ 0x5555}
 	a.peer, b.peer = b, a
 	return
+}
+
+// In baton mode all simulator state is guarded by sim.mu (the scheduler reads it at quiescence). In race mode each
+// pipe has its own lock, so that goroutines working on different connections share no synchronisation through the
+// harness (every shared lock would add happens-before edges and hide races of the code under test).
+func (c *Conn) lock() {
+	if c.sim.Free {
+		c.lk.Lock()
+	} else {
+		c.sim.mu.Lock()
+	}
+}
+
+func (c *Conn) unlock() {
+	if c.sim.Free {
+		c.lk.Unlock()
+	} else {
+		c.sim.mu.Unlock()
+	}
+}
+
+func (c *Conn) locker() sync.Locker {
+	if c.sim.Free {
+		return c.lk
+	}
+	return &c.sim.mu
+}
+
+// choose/pick: tape decisions in baton mode; a private generator in race mode (caller holds the pipe lock).
+func (c *Conn) choose(n int) int {
+	if c.sim.Free {
+		if n <= 1 {
+			return 0
+		}
+		return int(splitmix(&c.rng) % uint64(n))
+	}
+	return c.sim.Tape.Choose(n)
+}
+
+func (c *Conn) pick(weights ...int) int {
+	if !c.sim.Free {
+		return c.sim.Tape.Pick(weights...)
+	}
+	total := 0
+	for _, w := range weights {
+		total += w
+	}
+	v := c.choose(total)
+	for i, w := range weights {
+		if v < w {
+			return i
+		}
+		v -= w
+	}
+	return 0
 }
 
 func (c *Conn) record(r IORec) {
@@ -108,29 +167,31 @@ func (c *Conn) record(r IORec) {
 		return
 	}
 	r.At = c.sim.Now()
-	r.Step = c.sim.Step
+	if !c.sim.Free {
+		r.Step = c.sim.Step
+	}
 	c.Rec = append(c.Rec, r)
 }
 
 // Push puts data into this end's receive queue (used by scripted peers).
 func (c *Conn) Push(sg ...seg) {
-	c.sim.mu.Lock()
+	c.lock()
 	c.in.segs = append(c.in.segs, sg...)
 	c.in.headAt(time.Now())
-	c.sim.mu.Unlock()
+	c.unlock()
 }
 
 // PushEOF marks the receive direction as closed by the peer after all queued data.
 func (c *Conn) PushEOF() {
-	c.sim.mu.Lock()
+	c.lock()
 	c.in.eof = true
-	c.sim.mu.Unlock()
+	c.unlock()
 }
 
 // Pending is the number of bytes queued but not yet read on this end.
 func (c *Conn) Pending() int {
-	c.sim.mu.Lock()
-	defer c.sim.mu.Unlock()
+	c.lock()
+	defer c.unlock()
 	n := 0
 	for _, s := range c.in.segs {
 		n += len(s.data)
@@ -139,14 +200,14 @@ func (c *Conn) Pending() int {
 }
 
 func (c *Conn) Consumed() int {
-	c.sim.mu.Lock()
-	defer c.sim.mu.Unlock()
+	c.lock()
+	defer c.unlock()
 	return c.in.consumed
 }
 
 func (c *Conn) IsClosed() bool {
-	c.sim.mu.Lock()
-	defer c.sim.mu.Unlock()
+	c.lock()
+	defer c.unlock()
 	return c.closed
 }
 
@@ -190,7 +251,7 @@ func (c *Conn) Read(p []byte) (int, error) {
 	if c.MinReadCost > 0 {
 		minAt = time.Now().Add(c.MinReadCost)
 	}
-	r := s.Park("rd:"+c.Name, "read", func(now time.Time) (bool, Reason, time.Time) {
+	r := s.ParkL("rd:"+c.Name, "read", c.locker(), func(now time.Time) (bool, Reason, time.Time) {
 		n, headErr, next := c.availLocked(now)
 		if n > 0 {
 			return true, Ready, time.Time{}
@@ -214,8 +275,8 @@ func (c *Conn) Read(p []byte) (int, error) {
 		}
 		return false, Ready, next
 	})
-	s.mu.Lock()
-	defer s.mu.Unlock()
+	c.lock()
+	defer c.unlock()
 	if r == Drained {
 		c.record(IORec{Kind: "read", Err: net.ErrClosed})
 		return 0, net.ErrClosed
@@ -261,11 +322,11 @@ func (c *Conn) Read(p []byte) (int, error) {
 		k = len(p)
 	}
 	if c.CutReads && k > 1 && !st.segs[0].solo {
-		switch s.Tape.Pick(5, 2, 3) {
+		switch c.pick(5, 2, 3) {
 		case 1:
 			k = 1
 		case 2:
-			k = k - s.Tape.Choose(k)
+			k = k - c.choose(k)
 		}
 	}
 	// copy k bytes out of the queue
@@ -320,15 +381,15 @@ func bucket(n int) int {
 func (c *Conn) Write(p []byte) (int, error) {
 	s := c.sim
 	if !c.NoYieldWrite {
-		if s.Park("wr:"+c.Name, "write", always) == Drained {
+		if s.ParkL("wr:"+c.Name, "write", c.locker(), always) == Drained {
 			return 0, net.ErrClosed
 		}
 	}
-	s.mu.Lock()
+	c.lock()
 	if c.closed {
 		c.record(IORec{Kind: "write", Err: net.ErrClosed})
 		s.logLocked("write %s closed", c.Name)
-		s.mu.Unlock()
+		c.unlock()
 		return 0, net.ErrClosed
 	}
 	if c.WriteErr != nil {
@@ -341,17 +402,17 @@ func (c *Conn) Write(p []byte) (int, error) {
 		c.record(IORec{Kind: "write", N: n, Err: err, Data: append([]byte(nil), p[:n]...)})
 		s.logLocked("write %s n=%d err=%v", c.Name, n, err)
 		s.mixFP("wE")
-		s.mu.Unlock()
+		c.unlock()
 		return n, err
 	}
 	if c.peer != nil && c.peer.closed {
 		c.record(IORec{Kind: "write", Err: ErrSimIO})
 		s.logLocked("write %s peer-closed", c.Name)
-		s.mu.Unlock()
+		c.unlock()
 		return 0, fmt.Errorf("write %s: broken pipe: %w", c.Name, ErrSimIO)
 	}
 	if len(p) == 0 {
-		s.mu.Unlock()
+		c.unlock()
 		return 0, nil
 	}
 	data := append([]byte(nil), p...)
@@ -370,7 +431,7 @@ func (c *Conn) Write(p []byte) (int, error) {
 	s.logLocked("write %s n=%d %x", c.Name, len(p), p)
 	s.mixFP(fmt.Sprintf("w%d", bucket(len(p))))
 	cb := c.OnWrite
-	s.mu.Unlock()
+	c.unlock()
 	if cb != nil {
 		cb(c, data)
 	}
@@ -379,16 +440,16 @@ func (c *Conn) Write(p []byte) (int, error) {
 
 func (c *Conn) Close() error {
 	s := c.sim
-	s.mu.Lock()
+	c.lock()
 	if c.closed {
-		s.mu.Unlock()
+		c.unlock()
 		return nil
 	}
 	c.closed = true
 	c.out.eof = true
 	c.record(IORec{Kind: "close"})
 	cb := c.OnClose
-	s.mu.Unlock()
+	c.unlock()
 	s.LogUnordered("close " + c.Name)
 	if cb != nil {
 		cb(c)
@@ -407,15 +468,15 @@ func (c *Conn) peerName() string {
 	return "script"
 }
 func (c *Conn) SetDeadline(t time.Time) error {
-	c.sim.mu.Lock()
+	c.lock()
 	c.rdl = t
-	c.sim.mu.Unlock()
+	c.unlock()
 	return nil
 }
 func (c *Conn) SetReadDeadline(t time.Time) error {
-	c.sim.mu.Lock()
+	c.lock()
 	c.rdl = t
-	c.sim.mu.Unlock()
+	c.unlock()
 	return nil
 }
 func (c *Conn) SetWriteDeadline(t time.Time) error { return nil }
@@ -427,6 +488,7 @@ type Listener struct {
 	Name   string
 	queue  []*Conn
 	closed bool
+	lk     sync.Mutex
 	nConn  int
 	Conns  []*Conn // server ends, in dial order
 	// ConnSetup lets the scenario configure both ends of a new connection.
@@ -435,39 +497,62 @@ type Listener struct {
 
 func NewListener(s *Sim, name string) *Listener { return &Listener{sim: s, Name: name} }
 
+func (l *Listener) lock() {
+	if l.sim.Free {
+		l.lk.Lock()
+	} else {
+		l.sim.mu.Lock()
+	}
+}
+
+func (l *Listener) unlock() {
+	if l.sim.Free {
+		l.lk.Unlock()
+	} else {
+		l.sim.mu.Unlock()
+	}
+}
+
+func (l *Listener) locker() sync.Locker {
+	if l.sim.Free {
+		return &l.lk
+	}
+	return &l.sim.mu
+}
+
 // Dial creates a connection to the listener (non-yielding; callers yield around it as they see fit).
 func (l *Listener) Dial() (*Conn, error) {
 	s := l.sim
-	s.mu.Lock()
+	l.lock()
 	if l.closed {
 		s.logLocked("dial %s refused", l.Name)
-		s.mu.Unlock()
+		l.unlock()
 		return nil, ErrSimRefused
 	}
 	l.nConn++
 	name := fmt.Sprintf("%s-c%d", l.Name, l.nConn)
-	s.mu.Unlock()
+	l.unlock()
 	cl, sv := NewPipe(s, name)
 	cl.Name = name + ".cli"
 	sv.Name = name + ".srv"
 	if l.ConnSetup != nil {
 		l.ConnSetup(cl, sv)
 	}
-	s.mu.Lock()
+	l.lock()
 	l.queue = append(l.queue, sv)
 	l.Conns = append(l.Conns, sv)
 	s.logLocked("dial %s -> %s", l.Name, name)
-	s.mu.Unlock()
+	l.unlock()
 	return cl, nil
 }
 
 func (l *Listener) Accept() (net.Conn, error) {
 	s := l.sim
-	r := s.Park("accept:"+l.Name, "accept", func(time.Time) (bool, Reason, time.Time) {
+	r := s.ParkL("accept:"+l.Name, "accept", l.locker(), func(time.Time) (bool, Reason, time.Time) {
 		return l.closed || len(l.queue) > 0, Ready, time.Time{}
 	})
-	s.mu.Lock()
-	defer s.mu.Unlock()
+	l.lock()
+	defer l.unlock()
 	if r == Drained || (l.closed && len(l.queue) == 0) || l.closed {
 		s.logLocked("accept %s closed", l.Name)
 		return nil, net.ErrClosed
@@ -483,12 +568,12 @@ func (l *Listener) Accept() (net.Conn, error) {
 
 func (l *Listener) Close() error {
 	s := l.sim
-	s.mu.Lock()
+	l.lock()
 	already := l.closed
 	l.closed = true
 	pend := l.queue
 	l.queue = nil
-	s.mu.Unlock()
+	l.unlock()
 	if !already {
 		s.LogUnordered("close-listener " + l.Name)
 		// connections dialled but never accepted see a reset
@@ -502,8 +587,8 @@ func (l *Listener) Close() error {
 func (l *Listener) Addr() net.Addr { return simAddr(l.Name) }
 
 func (l *Listener) IsClosed() bool {
-	l.sim.mu.Lock()
-	defer l.sim.mu.Unlock()
+	l.lock()
+	defer l.unlock()
 	return l.closed
 }
 
